@@ -27,6 +27,7 @@ EXPLANATION = (
     "component name as is - None tests only, never a truthiness fallback (names 0 / '' are legal). (R8) every regex-matched column is validated against its own renamed schema copy, so collected errors name their own column; (R9) pandas consolidate_failure_cases attributes a tabular case to its own `column` label, then the error's column_name, then the schema name, and the ErrorHandler accessors hand out exactly what was collected. " 
     " (R10) a handler that collects an error and carries on sits inside the loop over the validated elements (a single try around the whole loop ends it at the first failure, so later failures never reach the lazy report). " 
     " (R11) an API-level validate that validates two parts in sequence (SeriesSchema: values, then index) fences the first call, so that the second part still runs and both are reported in lazy mode. " 
+    " (R12) every per-error frame of the polars report casts failure_case to the common string type before pl.concat. " 
     "NOT decided: equality of failure_cases with the set of offending cells."
 )
 LEVEL_RULE = "one obligation per handler / lazy use / validate method / fenced call"
